@@ -364,6 +364,8 @@ Clear(x, t) == LET up == Upstream(x, t) IN
                                           THEN [@[o] EXCEPT !.unreg = @ \cup (up \cap {x.op[o].vars[i] : i \in 1..Len(x.op[o].vars)})]
                                           ELSE @[o]]])
 
+\* the user keeps a reference to a tensor's ndarray:  d = t.data
+DataOf(x, t) == [x EXCEPT !.arr[x.ten[t].arr].held = TRUE]
 DropT(x, t) == Collect([x EXCEPT !.ten[t].held = FALSE])
 DropA(x, a) == Collect([x EXCEPT !.arr[a].held = FALSE])
 SetGuard(x, b) == [x EXCEPT !.guard = b]
@@ -380,6 +382,7 @@ Apply(x, e) ==
     [] e.k = "inplacefam" -> InPlaceFam(x, e.t, e.val)
     [] e.k = "view"   -> DoView(x, e.t)
     [] e.k = "fail"   -> FailOp(x, e.ins)
+    [] e.k = "dataof" -> DataOf(x, e.t)
     [] e.k = "clear"  -> Clear(x, e.t)
     [] e.k = "dropt"  -> DropT(x, e.t)
     [] e.k = "dropa"  -> DropA(x, e.a)
@@ -420,6 +423,7 @@ Stmts(x) ==
   \cup (IF "view" \in Alphabet /\ Room(x, 1, 1, 1) THEN {[k |-> "view", t |-> t] : t \in HeldT(x)} ELSE {})
   \cup (IF "fail" \in Alphabet /\ Room(x, 0, 2, 0) THEN
           {[k |-> "fail", ins |-> <<p, q>>] : p \in Operands(x), q \in Operands(x)} ELSE {})
+  \cup (IF "dataof" \in Alphabet THEN {[k |-> "dataof", t |-> t] : t \in {u \in HeldT(x) : ~x.arr[x.ten[u].arr].held}} ELSE {})
   \cup (IF "clear" \in Alphabet THEN {[k |-> "clear", t |-> t] : t \in {u \in HeldT(x) : x.ten[u].creator # 0}} ELSE {})
   \cup (IF "dropt" \in Alphabet THEN {[k |-> "dropt", t |-> t] : t \in HeldT(x)} ELSE {})
   \cup (IF "dropa" \in Alphabet THEN {[k |-> "dropa", a |-> a] : a \in HeldA(x)} ELSE {})
@@ -439,7 +443,7 @@ Next == /\ (EmitHist => Len(hist) < MaxLen)
               /\ hist' = IF EmitHist
                           THEN Append(hist, [ev |-> e, proj |-> Proj(s'),
                                              \* ids of the objects the statement handed to the user
-                                             newa |-> SetToSeq({a \in Arr : s'.arr[a].alive /\ s'.arr[a].held /\ ~s.arr[a].alive}),
+                                             newa |-> SetToSeq({a \in Arr : s'.arr[a].alive /\ s'.arr[a].held /\ ~(s.arr[a].alive /\ s.arr[a].held)}),
                                              newt |-> SetToSeq({t \in Ten : s'.ten[t].alive /\ s'.ten[t].held /\ ~s.ten[t].alive})])
                           ELSE <<>>
 Spec == Init /\ [][Next]_vars
